@@ -2,6 +2,8 @@
 //verif:use store,aferostub,fusehelp
 //verif:assume the mutable file system is driven through its fuseutil.FileSystem methods the way the kernel drives them: rmdir only on directories, unlink only on non-directories, rename only between entries of compatible kinds and never of a directory into itself (the kernel's VFS refuses the other cases before they reach the file system); one ForgetInode for every inode whose last name was removed (lookup count 1: no extra lookups are issued while the program runs)
 //verif:assume programs of 3 (thorough: 4) operations - from the empty tree, or 2 (thorough: 3) after a fixed three-operation prelude (mkdir d, create d/x, write d/x; or create x, unlink x, mkdir d) - chosen by the solver from {mkdir, create, write (append two bytes, or overwrite the first byte), truncate (to nothing, or two bytes longer), unlink, rmdir, rename} over the parents {root, directory d} and the names {d, x}; the staging area is an in-memory afero.Fs model; commit runs the real Commit() (real cafs, BLAKE2b as UF) and the committed bundle is read back with DownloadMetadata
+//verif:assume commit under a fault: two files (x at the root, d/x) written, then Commit() with one transient fault at a solver-chosen mutating store call (blob or metadata store)
+//verif:cover VerifC18CommitFault commit-failed
 //verif:cover VerifC18Programs eexist enoent enotempty renamed replaced-by-rename committed-nested-file in-place-overwrite extending-truncate prelude-nested-file prelude-inode-reuse
 package fuse
 
@@ -331,5 +333,46 @@ func VerifC18Programs() {
 		sz, ok := wantFiles[name]
 		vAssert(ok, "bundle-entry-is-a-visible-file")
 		vAssert(!ok || e.Size == uint64(sz), "bundle-entry-has-the-files-size")
+	}
+}
+
+// VerifC18CommitFault: committing a mutable mount while one store write fails: the commit reports the failure, or
+// the bundle it published holds every visible file; a bundle descriptor never appears without all of its file lists.
+func VerifC18CommitFault() {
+	vBudget(400000000)
+	vUnwind(200000)
+	fs, stores := vNewMutable()
+	ctx := context.Background()
+	mk := &fuseops.MkDirOp{Parent: fuseops.RootInodeID, Name: "d"}
+	vAssert(fs.MkDir(ctx, mk) == nil, "mkdir")
+	for _, parent := range []fuseops.InodeID{fuseops.RootInodeID, mk.Entry.Child} {
+		cf := &fuseops.CreateFileOp{Parent: parent, Name: "x"}
+		vAssert(fs.CreateFile(ctx, cf) == nil, "create")
+		vAssert(fs.WriteFile(ctx, &fuseops.WriteFileOp{Inode: cf.Entry.Child, Offset: 0, Data: []byte("hello")}) == nil, "write")
+	}
+	meta, _ := stores.Metadata().(*vStore)
+	blob, _ := stores.Blob().(*vStore)
+	vAssert(meta != nil && blob != nil, "stores")
+	cr := &vCrasher{stores: []*vStore{meta, blob}, transient: true}
+	cr.crashAt = vInt("faultAt", 1, 12)
+	cr.install()
+	err := fs.Commit()
+	cr.revive()
+	vAssume(cr.crashed)
+	id := fs.bundle.BundleID
+	_, hasDesc := meta.data[model.GetArchivePathToBundle("r", id)]
+	if err != nil {
+		vCover("commit-failed")
+	} else {
+		vAssert(hasDesc, "commit-that-reports-success-published-the-bundle")
+	}
+	if hasDesc {
+		rb := core.NewBundle(core.Repo("r"), core.ContextStores(stores), core.BundleID(id), core.Logger(zap.NewNop()))
+		vAssert(core.DownloadMetadata(ctx, rb) == nil, "published-bundle-readable")
+		names := map[string]bool{}
+		for _, e := range rb.BundleEntries {
+			names[e.NameWithPath] = true
+		}
+		vAssert(len(names) == 2 && names["x"] && names["d/x"], "published-bundle-holds-every-visible-file")
 	}
 }
